@@ -175,12 +175,16 @@ struct ChopStream {
     /// position inside the buffer tungstenite is flushing, and what was left of it after the last write
     pos: usize,
     last_remaining: usize,
+    /// `+8`: stalls longer than any plausible internal timer, each once, in the middle of a frame
+    long_stalls: Vec<u64>,
 }
+
+static THOROUGH: std::sync::atomic::AtomicBool = std::sync::atomic::AtomicBool::new(false);
 
 impl ChopStream {
     fn new(inner: TcpStream, mode: u8, seed: u64) -> ChopStream {
         let _ = inner.set_nodelay(true);
-        ChopStream { inner, mode, rng: Rng::new(seed), sleep: None, budget: 0, pos: 0, last_remaining: 0 }
+        ChopStream { inner, mode, rng: Rng::new(seed), sleep: None, budget: 0, pos: 0, last_remaining: 0, long_stalls: if THOROUGH.load(std::sync::atomic::Ordering::Relaxed) { vec![11_000, 5_500, 2_500] } else { vec![1_100, 600, 300] } }
     }
 }
 
@@ -194,7 +198,7 @@ impl tokio::io::AsyncWrite for ChopStream {
     fn poll_write(mut self: std::pin::Pin<&mut Self>, cx: &mut std::task::Context<'_>, buf: &[u8]) -> std::task::Poll<std::io::Result<usize>> {
         use std::task::Poll;
         let this = &mut *self;
-        if this.mode & 3 == 0 || buf.is_empty() {
+        if this.mode & 11 == 0 || buf.is_empty() {
             return std::pin::Pin::new(&mut this.inner).poll_write(cx, buf);
         }
         if let Some(s) = this.sleep.as_mut() {
@@ -207,7 +211,7 @@ impl tokio::io::AsyncWrite for ChopStream {
             this.pos = 0; // a new buffer is being flushed
         }
         if this.budget == 0 {
-            this.budget = match this.mode & 3 {
+            this.budget = match if this.mode & 3 == 0 { 2 } else { this.mode & 3 } {
                 // with stalls: byte by byte through the first and the last 64 bytes, the middle in bulk
                 1 if this.mode & 4 != 0 && this.pos >= 16 && buf.len() > 8 => ((buf.len() - 8) / (1 + this.rng.below(3) as usize)).max(1) + this.rng.below(5) as usize,
                 // byte by byte — except through the middle of a large buffer (quick tier: time)
@@ -223,7 +227,11 @@ impl tokio::io::AsyncWrite for ChopStream {
                 this.budget -= w.min(this.budget);
                 this.pos += w;
                 this.last_remaining = buf.len() - w;
-                if this.mode & 4 != 0 && this.rng.chance(1, 4) {
+                if this.mode & 8 != 0 && !this.long_stalls.is_empty() && this.last_remaining > 0 && this.rng.chance(1, 12) {
+                    // the rest of this frame arrives after a long pause
+                    let ms = this.long_stalls.pop().unwrap();
+                    this.sleep = Some(Box::pin(tokio::time::sleep(Duration::from_millis(ms))));
+                } else if this.mode & 4 != 0 && this.rng.chance(1, 4) {
                     let ms = if this.rng.chance(1, 60) { 120 } else { this.rng.range(1, 3) };
                     this.sleep = Some(Box::pin(tokio::time::sleep(Duration::from_millis(ms))));
                 }
@@ -431,7 +439,7 @@ async fn make_world(cfg: &str, upstream: SocketAddr) -> Result<World, String> {
     let peer_addr = cl.local_addr().unwrap();
     {
         let seen = seen.clone();
-        let peer_chop: u8 = match cfg { "1024" => 5, "200" => 1, "4096" => 2, "1048576" => 3, "64" => 5, "u" => 6, _ => 0 };
+        let peer_chop: u8 = match cfg { "1024" => 5, "200" => 1, "4096" => 2, "1048576" => 3, "64" => 5, "u" => 6, "1024,-,-" => 11, _ => 0 };
         tokio::spawn(async move {
             loop {
                 let Ok((stream, _)) = cl.accept().await else { break };
@@ -479,7 +487,7 @@ async fn make_world(cfg: &str, upstream: SocketAddr) -> Result<World, String> {
         return Err("SharedWebSocketServer::limits() is not the configured value".into());
     }
     // requests reach the server / proxy whole, in 2–3 pieces, or byte-wise with stalls — by configuration
-    let chop: u8 = match cfg { "1024" => 2, "65536" => 5, "200" => 1, "-" => 3, "4096" => 6, _ => 0 };
+    let chop: u8 = match cfg { "1024" => 2, "65536" => 5, "200" => 1, "-" => 3, "4096" => 6, "4096,100000,200000" => 10, _ => 0 };
     // observers: read-only methods hammered from two tasks while the cases run; every observation must be
     // the configured value / the registered state
     {
@@ -1295,6 +1303,7 @@ fn parse_spec(line: &str) -> Option<Spec> {
 
 fn main() {
     let args = Args::parse();
+    THOROUGH.store(args.thorough(), std::sync::atomic::Ordering::Relaxed);
     let mut out = Out::new(&args.out);
     out.rule = "per limits expression {default().with_assumed_peer_frame_limit(Some(1 KiB | 4 KiB | 64 KiB | 1 MiB)), …(None), WebSocketLimits::unlimited(), no limits given at all (WebSocketServer::new / proxy_connection / WebSocketClient::connect: frames at 16 MiB and 16 MiB + 1); thorough adds 16 MiB, 300, 100000; the 4 KiB and unlimited worlds are served through into_shared + SharedWebSocketServer::accept + serve_connection} and per outbound path {inline response, off-reader response (custom erased handler), off-reader response (with_json_blocking), ctx.peer() notify from an inline and from an off-reader handler, three pushes in a row from one handler call with the sized one in the middle, PeerRegistry broadcast, proxy-forwarded response, client request, client notify}: frame sizes limit-2..limit+2 plus random sizes (small, below, just above, far above, near the limit), random split between query and body, handler-chosen (also very long) or echoed query, 1 in 4 handler answers an error response of its own, body buffers with and without spare capacity; each case is followed by one more request on the same connection. Distinct by op line; non-trivial = the guard fired (size > limit) or the size is within 2 of the limit".into();
     let rt = tokio::runtime::Builder::new_multi_thread().worker_threads(4).enable_all().build().unwrap();
